@@ -224,7 +224,7 @@ func c03Run(c *fw.Ctx) {
 		if cookieSet(got) != cookieSet(layout.Other) {
 			viol("other-cookie-changed/"+layout.Name, fmt.Sprintf("client sent other cookies %v, upstream received %v", layout.Other, got))
 		}
-		c.Res.Outcome(fmt.Sprintf("%s|%s|%s|%v|%s|%d", handling, layout.Name, inj.name, conn != "", strings.Join(desc, ","), len(c.Res.Violations)))
+		c.Res.Outcome(fmt.Sprintf("%s|%s|%s|%v|%s", handling, layout.Name, inj.name, conn != "", strings.Join(desc, ",")))
 		if c.Res.Execs%3000 == 17 {
 			c.Res.Sample(caseDesc())
 		}
